@@ -585,6 +585,33 @@ def countFdt (dec : (k p : Nat) → List Nat → Bool) (rc : RxCfg) (s : SessCfg
 def observe (decF decO : (k p : Nat) → List Nat → Bool) (rc : RxCfg) (s : SessCfg) (o : ObjCfg) (ps : List Pkt) : OState :=
   runObj decO rc o {} (eventsFor decF rc s o fdtRx0 ps)
 
+/-! ## Carousel cycles (C16) -/
+
+/-- a transfer begins with the packet (SBN 0, ESI 0) -/
+def Pkt.isStart (p : Pkt) : Bool := p.sbn == 0 && p.esi == 0
+
+/-- scan `ps` (whose head has stream index `pos`) for one complete transfer of the source selected by `sel`
+    that BEGINS in `ps`: skip to the source's first (0,0) packet, then run to its next (0,0) packet.
+    `some e` in the third argument: a transfer has begun and `e` is the index right after the last packet of
+    the source seen so far.  Result: the index right after the last packet of that transfer - `none` when the
+    stream ends before the source's next transfer begins (the transfer cannot be told complete). -/
+def cycleScan (sel : Pkt → Bool) : List Pkt → Nat → Option Nat → Option Nat
+  | [], _, _ => none
+  | p :: ps, pos, none =>
+    if sel p && p.isStart then cycleScan sel ps (pos + 1) (some (pos + 1)) else cycleScan sel ps (pos + 1) none
+  | p :: ps, pos, some e =>
+    if sel p then (if p.isStart then some e else cycleScan sel ps (pos + 1) (some (pos + 1)))
+    else cycleScan sel ps (pos + 1) (some e)
+
+/-- end (exclusive) of the first FULL CYCLE starting at stream position `i`: the shortest prefix of
+    `stream.drop i` that contains, for every source in `tois` (TOI 0 = the FDT, and the carouselled objects),
+    one complete transfer begun at or after `i` -/
+def cycleEnd (tois : List Nat) (stream : List Pkt) (i : Nat) : Option Nat :=
+  tois.foldl (fun acc t =>
+    match acc, cycleScan (fun p => p.toi == t) (stream.drop i) i none with
+    | some e, some e' => some (max e e')
+    | _, _ => none) (some i)
+
 /-! ## `add_object`: scheme maximum (filedesc.rs `FileDesc::new`, oti.rs `max_transfer_length`) -/
 
 def maxSbn : Scheme → Nat
